@@ -243,6 +243,28 @@ PROPS = {
                     "re-advertised to its then-nearest r peers once per interval + delay through splits, merges, outages and restarts) is "
                     "monitored on generated histories, not proved",
     ),
+    "C14": dict(
+        pkg=".", test="TestVerifC14", model="C14", verdict="C14v", level="other", diff_is_failure=False, stateless=True,
+        accept=lambda m, o: m == "-" or m == o,
+        also=["C14d", "C14f", "C14p", "C20", "C12r"],
+        rule="a case builds a component in a synctest bubble, starts 1-3 operations (closest peers / get / search / put / provide / find "
+             "providers / forced refresh) on a scripted network, answers 0-11 of their requests, then calls Close (once or twice "
+             "concurrently) while the rest is outstanding; or makes a constructor fail after it has started background work. Required: "
+             "every operation returns, every Close returns, a repeated Close is harmless, no panic, the emitter of the host's event bus is "
+             "not blocked by a left-over subscription, and the bubble ends with no goroutine still blocked. Sibling harnesses do the same "
+             "for the dual DHT, the accelerated client, the sweeping provider (with the buffered wrapper), the keystores (Close during a "
+             "reset, C20 harness), the refresh manager (C12r) and the provider store (C07); non-trivial = every case",
+        trusted=["testing/synctest: a goroutine that is still blocked when the bubble's root returns is reported; scripted sender + simnet"],
+        shards={"quick": 8, "thorough": 16},
+        explanation="partial: goroutine exit is observed on the sampled instants, not proved; the shutdown protocol of the wait-group guard is a Lean theorem",
+    ),
+    # sibling harnesses of C14 (not properties of their own)
+    "C14d": dict(pkg="./dual", test="TestVerifC14d", model="C14", verdict="C14v", level="other", diff_is_failure=False, stateless=True,
+                 accept=lambda m, o: m == "-" or m == o, rule="Close of the dual DHT with operations in flight; LAN construction failing after the WAN DHT was started", trusted=[], shards={"quick": 4, "thorough": 8}),
+    "C14f": dict(pkg="./fullrt", test="TestVerifC14f", model="C14", verdict="C14v", level="other", diff_is_failure=False, stateless=True,
+                 accept=lambda m, o: m == "-" or m == o, rule="Close of the accelerated client with operations in flight; NewFullRT failing in the provider manager option", trusted=[], shards={"quick": 4, "thorough": 8}),
+    "C14p": dict(pkg="./provider", test="TestVerifC14p", model="C14", verdict="C14v", level="other", diff_is_failure=False, stateless=True,
+                 accept=lambda m, o: m == "-" or m == o, rule="Close of the sweeping provider / buffered wrapper when idle, mid-cycle, with sends hanging, and offline", trusted=[], shards={"quick": 4, "thorough": 8}),
     "C08": dict(
         pkg=".", test="TestVerifC08", model="C08", verdict="C08v", level="proof", diff_is_failure=True, also=["C15"],
         accept=lambda m, o: m == "-" or m == "pseq=*" or (" " + m + " ") in (" " + o + " "),
